@@ -24,6 +24,9 @@ type DExpr struct {
 	Str   string
 	Items []DExpr
 	Keys  []string
+	// the value of a property the effective schema of its body does not declare: JSON decoding (schema-driven)
+	// leaves it out; it is written into the JSON rendering only
+	Unknown bool
 }
 
 type DAttr struct {
@@ -102,6 +105,9 @@ func (e DExpr) json(legacy bool) string {
 func (b DBody) native(ind string) string {
 	var sb strings.Builder
 	for _, a := range b.Attrs {
+		if a.Val.Unknown {
+			continue
+		}
 		fmt.Fprintf(&sb, "%s%s = %s\n", ind, a.Name, a.Val.native())
 	}
 	for _, k := range b.Blocks {
@@ -199,10 +205,10 @@ func genDual(r *rand.Rand) DBody {
 		name := names[i]
 		body := DBody{}
 		if r.Intn(2) == 0 {
-			body.Attrs = append(body.Attrs, DAttr{"default", pick(r, []DExpr{{Kind: "str", Str: "d"}, {Kind: "num", Str: "1"}, {Kind: "list", Items: []DExpr{{Kind: "str", Str: "x"}}}})})
+			body.Attrs = append(body.Attrs, DAttr{Name: "default", Val: pick(r, []DExpr{{Kind: "str", Str: "d"}, {Kind: "num", Str: "1"}, {Kind: "list", Items: []DExpr{{Kind: "str", Str: "x"}}}})})
 		}
 		if r.Intn(2) == 0 {
-			body.Attrs = append(body.Attrs, DAttr{"description", DExpr{Kind: "str", Str: "desc"}})
+			body.Attrs = append(body.Attrs, DAttr{Name: "description", Val: DExpr{Kind: "str", Str: "desc"}})
 		}
 		b.Blocks = append(b.Blocks, DBlock{Type: "variable", Labels: []string{name}, Body: body})
 		g.decls = append(g.decls, "var."+name)
@@ -217,7 +223,7 @@ func genDual(r *rand.Rand) DBody {
 			if r.Intn(3) == 0 {
 				val = g.ref()
 			}
-			lb.Attrs = append(lb.Attrs, DAttr{name, val})
+			lb.Attrs = append(lb.Attrs, DAttr{Name: name, Val: val})
 			g.decls = append(g.decls, "local."+name)
 		}
 		b.Blocks = append(b.Blocks, DBlock{Type: "locals", Body: lb})
@@ -226,7 +232,7 @@ func genDual(r *rand.Rand) DBody {
 		typ := pick(r, tfTypes)
 		name := fmt.Sprintf("r%d", i)
 		rb := DBody{}
-		add := func(n string, v DExpr) { rb.Attrs = append(rb.Attrs, DAttr{n, v}) }
+		add := func(n string, v DExpr) { rb.Attrs = append(rb.Attrs, DAttr{Name: n, Val: v}) }
 		if r.Intn(2) == 0 {
 			if r.Intn(3) == 0 {
 				add("str", g.strOrRef())
@@ -281,7 +287,7 @@ func genDual(r *rand.Rand) DBody {
 	for i, n := 0, r.Intn(3); i < n; i++ {
 		ob := DBody{Attrs: []DAttr{{"value", g.strOrRef()}}}
 		if r.Intn(3) == 0 {
-			ob.Attrs = append(ob.Attrs, DAttr{"dep", g.ref()})
+			ob.Attrs = append(ob.Attrs, DAttr{Name: "dep", Val: g.ref()})
 		}
 		b.Blocks = append(b.Blocks, DBlock{Type: "output", Labels: []string{fmt.Sprintf("o%d", i)}, Body: ob})
 	}
@@ -289,30 +295,45 @@ func genDual(r *rand.Rand) DBody {
 		backend := pick(r, []string{"s3", "gcs", ""})
 		dbody := DBody{Attrs: []DAttr{{"provider", DExpr{Kind: "str", Str: "p"}}}}
 		if backend != "" {
-			dbody.Attrs = append(dbody.Attrs, DAttr{"backend", DExpr{Kind: "str", Str: backend}})
+			dbody.Attrs = append(dbody.Attrs, DAttr{Name: "backend", Val: DExpr{Kind: "str", Str: backend}})
 		}
-		dbody.Attrs = append(dbody.Attrs, DAttr{"workspace", g.strOrRef()})
+		dbody.Attrs = append(dbody.Attrs, DAttr{Name: "workspace", Val: g.strOrRef()})
 		if backend == "s3" {
-			dbody.Attrs = append(dbody.Attrs, DAttr{"bucket", DExpr{Kind: "str", Str: "b"}})
+			dbody.Attrs = append(dbody.Attrs, DAttr{Name: "bucket", Val: DExpr{Kind: "str", Str: "b"}})
 		}
 		if r.Intn(2) == 0 {
 			dbody.Blocks = append(dbody.Blocks, DBlock{Type: "defaults", Body: DBody{Attrs: []DAttr{{"region", DExpr{Kind: "str", Str: "r"}}}}})
 		}
 		b.Blocks = append(b.Blocks, DBlock{Type: "data", Labels: []string{"remote_state", fmt.Sprintf("d%d", i)}, Body: dbody})
 	}
+	if r.Intn(2) == 0 {
+		// blocks whose attributes all come from the label-selected body, each also carrying a property that
+		// only the OTHER kind declares (unknown here)
+		kinds := []string{"aws", "gcp"}
+		r.Shuffle(2, func(i, j int) { kinds[i], kinds[j] = kinds[j], kinds[i] })
+		for i, k := range kinds[:1+r.Intn(2)] {
+			other := map[string]string{"aws": "gcp", "gcp": "aws"}[k]
+			pb := DBody{Attrs: []DAttr{{Name: k + "_only", Val: DExpr{Kind: "str", Str: "v"}}, {Name: other + "_only", Val: DExpr{Kind: "str", Str: "foreign", Unknown: true}},
+				{Name: "common", Val: DExpr{Kind: "num", Str: "1"}}}}
+			if i == 1 && r.Intn(2) == 0 {
+				pb.Attrs = pb.Attrs[1:]
+			}
+			b.Blocks = append(b.Blocks, DBlock{Type: "plug", Labels: []string{k}, Body: pb})
+		}
+	}
 	for i, n := 0, r.Intn(3); i < n; i++ {
 		kind := pick(r, []string{"role", "role", "plain"})
 		cb := DBody{Attrs: []DAttr{{"extra", g.strOrRef()}}}
 		if kind == "role" {
 			if r.Intn(2) == 0 {
-				cb.Attrs = append(cb.Attrs, DAttr{"role", g.ref()})
+				cb.Attrs = append(cb.Attrs, DAttr{Name: "role", Val: g.ref()})
 			}
 			if r.Intn(2) == 0 {
-				cb.Attrs = append(cb.Attrs, DAttr{"alias", DExpr{Kind: "str", Str: "al"}})
+				cb.Attrs = append(cb.Attrs, DAttr{Name: "alias", Val: DExpr{Kind: "str", Str: "al"}})
 			}
 		}
 		if r.Intn(2) == 0 {
-			cb.Attrs = append(cb.Attrs, DAttr{fmt.Sprintf("free%d", i), g.strOrRef()})
+			cb.Attrs = append(cb.Attrs, DAttr{Name: fmt.Sprintf("free%d", i), Val: g.strOrRef()})
 		}
 		if r.Intn(2) == 0 {
 			cb.Blocks = append(cb.Blocks, DBlock{Type: "sub", Body: DBody{Attrs: []DAttr{{"x", DExpr{Kind: "num", Str: "1"}}}}})
